@@ -229,7 +229,7 @@ def validate(trace_module, cfg, files, timeout=3000, xmx="3g", par=None):
             b = BAD_RE.match(line)
             if b:
                 bads.append({"file": path, "l": int(b.group(1)), "row": int(b.group(2)), "prop": b.group(3),
-                             "clause": b.group(4)})
+                             "clause": b.group(4), "trace": (trace_module, cfg)})
             elif line.startswith('<<"NOTE"'):
                 notes.append(line)
         return bads, int(m.group(1)), notes
